@@ -99,6 +99,8 @@ def generate(seed, tier, batch):
         if routine == "shrink" and sel == "degree":
             sel = "uniform"
         start = sorted(r.sample(range(n), r.randint(1, n)))
+        if random.Random("c19e:%d" % seed).random() < 0.1:
+            start = []  # the empty clique (a sample without clicks): every node of the graph can be added to it
         return {"kind": "clique", "graph": g, "routine": routine, "select": sel, "weights": wts, "start": start, "iterations": r.randint(1, 3), "sseed": seed,
                 "edit_between": r.random() < 0.3, "foreign_first": r.random() < 0.2}
     if batch == "subgraph":
